@@ -96,6 +96,7 @@ type scanEngine struct {
 	prefix     string              // obligation name prefix
 	structRef  map[*ssa.Alloc]*Term // struct-typed entry locals
 	alwaysFull bool                // every obligation is checked with the full (quantified) context
+	variants   map[string]*CExpr   // cut name -> variant expression of the loop through that cut (E-DRV)
 }
 
 func buildNaiveLex(w *World) (*ssa.Function, error) {
@@ -455,6 +456,7 @@ func (se *scanEngine) instantiate() error {
 // region execution
 
 type scanWalker struct {
+	v0  *Term // value of the cut's variant expression at the start of the region
 	se  *scanEngine
 	r   *scanRegion
 	x   *Exec
@@ -591,6 +593,9 @@ func (se *scanEngine) execRegion(c *scanCut) (r *scanRegion) {
 		}
 	}
 	wk := &scanWalker{se: se, r: r, x: x, fc: fc}
+	if ve := se.variants[c.name]; ve != nil && !isEntry {
+		wk.v0 = x.Sc.Define("variant0", x.eval(fc, st, st, ve, b).V.(*Term))
+	}
 	if strings.HasPrefix(c.name, "st_case_") || (strings.HasPrefix(c.name, "tr") && !strings.Contains(c.name, "@")) {
 		if lv, ok := b["lex"]; ok {
 			if ref, isT := lv.V.(*Term); isT {
@@ -864,6 +869,16 @@ func (wk *scanWalker) atCut(tc *scanCut, st *State, edge string) {
 	x, fc, se := wk.x, wk.fc, wk.se
 	wk.r.targets[tc] = true
 	b := se.binds(x, st, nil)
+	if tc == wk.r.cut && wk.v0 != nil {
+		// termination of the loop through this cut: the variant is non-negative and strictly decreases
+		savedP := fc.params
+		fc.params = map[string]TV{}
+		v1 := x.eval(fc, st, st, se.variants[tc.name], b).V.(*Term)
+		fc.params = savedP
+		o := &Obligation{Name: fmt.Sprintf("%s/dec/%s:%s@%s", x.Prefix, tc.name, se.variants[tc.name].String(), edge), Class: "dec", Props: se.props,
+			Goal: tImp(st.Guard, tAnd(tLe(mkInt(0), wk.v0), tLt(v1, wk.v0)))}
+		x.Sc.AddObligation(o)
+	}
 	// a parameter named in a candidate is the local variable (a cell in naive form)
 	saved := fc.params
 	fc.params = map[string]TV{}
